@@ -90,11 +90,16 @@ def _gen_evolve(rng: random.Random, g: dict, cur: MG) -> tuple[list[list], MG]:
             D.add((u, v))
         else:
             u, v = rng.sample(nodes, 2)
-            if rng.random() < 0.3:
+            fresh_ends = _wchoice(rng, [(0, 0.65), (1, 0.25), (2, 0.10)])
+            for k in range(fresh_ends):
+                # one or BOTH end points are nodes the graph has never seen (the edge is their first appearance)
                 nm = world.gen_names(rng, 1)[0]
                 while nm in N:
                     nm = world.gen_names(rng, 1)[0]
-                v = nm
+                if k == 0:
+                    v = nm
+                else:
+                    u = nm
                 N.add(nm)
                 if order is not None:
                     order.insert(rng.randrange(len(order) + 1), nm)
@@ -170,6 +175,15 @@ def gen_case_c14(seed: int, s: int, w: int, tier: str) -> dict:
                         own.append((len(script) - 1, rm))
                         new_prev.append((["p", r, c, len(script) - 1], rm))
             scripts[c] = script
+        for gi in range(ngraphs):
+            if not graphs[gi]["acyclic"] and len(cur[gi].N) >= 2 and rng.random() < 0.5:
+                # closure burst on a cyclic graph: single-source closures of several nodes asked one after the other on
+                # the same, unedited object (per-node memos filled while walking strongly connected components)
+                c = rng.choice(callers)
+                nodes_b = sorted(cur[gi].N)
+                for nd in rng.sample(nodes_b, rng.randint(2, len(nodes_b))):
+                    scripts[c].append({"op": rng.choice(("ancestors_inclusive", "descendants_inclusive")), "t": ["g", gi],
+                                       "a": {"S": [nd], "c": rng.choice(("single", "set", "list"))}})
         rnd: dict[str, Any] = {"scripts": scripts}
         asked += [sp for sc in scripts.values() for sp in sc if sp["t"][0] == "g" and not sp["a"].get("bad")]
         prev += new_prev
